@@ -516,16 +516,51 @@ def listOracleCore (c : Case) (o : ImplObs) (v lo : Nat) (hi : Option Nat) (item
               else some s!"the error {e} of a bad segment is not between its delimiters (bytes {l}..{r})"
             | none => none
         else []
-      verdict (judge expVal ex.consumed (nbad + (if tooFew then 1 else 0)) "" ++ located)
-        (if ex.lastBadAtEnd then "F21-bad-last-segment-without-abort-token " else "")
+      if ex.lastBadAtEnd && res == "err:E[]recover" then
+        -- finding F21: the list gives up with a recovery error — after having reported every bad
+        -- segment (the last one included) and before any count error
+        if o.results.length == 1 && o.sink.length != nbad then
+          s!"FAIL C11: the last segment is bad and runs to the end of the text: {o.sink.length} errors reported, expected {nbad}"
+        else "FAIL C11: F21-bad-last-segment-without-abort-token the list must succeed, got err:E[]recover"
+      else
+      verdict (judge expVal ex.consumed (nbad + (if tooFew then 1 else 0)) "" ++ located) ""
     else
       if nbad == 0 && !tooFew then verdict (judge expVal ex.consumed 0 "all segments are good: ") ""
       else if res.startsWith "err:" then
-        (if nbad == 0 && !res.startsWith "err:E[]count" then "FAIL C11: expected the count error, got " ++ res else "ok")
+        (if nbad == 0 && !res.startsWith "err:E[]count" then "FAIL C11: expected the count error, got " ++ res
+         else if nbad > 0 && res.startsWith "err:E[]recover" then
+           "FAIL C11: without a sink the first bad segment's own error must be returned, got a recovery error"
+         else "ok")
       else s!"FAIL C11: without a sink a bad segment (or too few entries) must fail the list, got {got}"
+
+/-- C10 seen through a list whose item is a bracket parser (the same parser object applied to
+every item): no bracket error may be reported inside an item that is one properly nested
+bracket (the filtered stream is split at the separators; the generated items contain none). -/
+def listOfBracketsOracle (c : Case) (o : ImplObs) (opens closes babort : List Nat) (sep : Nat) (abort : List Nat) : String :=
+  let view := (initialPState c).view
+  let body := view.takeWhile (fun r => !abort.contains r.tok.kind)
+  let segs := (Spec.splitAtSep sep body).filter (!·.isEmpty)
+  let wellNested := segs.filter fun seg =>
+    match Spec.refMatch opens closes babort (seg.map (·.tok.kind)) with
+    | .matched i0 iClose _ => i0 == 0 && iClose + 1 == seg.length
+    | _ => false
+  let bad := o.sink.filter fun e =>
+    e.startsWith "E[]bracket{" &&
+    (match errByteRange ((e.replace "mismatch=" "es=").replace "unclosed=" "es=" |>.replace "unopened=" "es=" |>.replace "none=" "es=" |>.replace "/" ";ts=") with
+     | some (lo, _) => wellNested.any fun seg =>
+         (match seg.head?, seg.getLast? with
+          | some a, some b => a.start.byte ≤ lo && lo < b.stop.byte
+          | _, _ => false)
+     | none => false)
+  if bad.isEmpty then "ok"
+  else s!"FAIL C10: a bracket error is reported inside an item that is one properly nested bracket: {bad.headD ""}"
 
 def listOracle (c : Case) (impl : String) : String :=
   match c.g, parseObs impl with
+  | .list _ _ _ _ (.bracket _ opens inner closes babort) sep abort, some o =>
+    -- (an inner parser that is itself a bracket parser reports bracket errors of its own)
+    if Spec.supported inner then listOfBracketsOracle c o opens closes babort sep abort
+    else "SKIP list of brackets whose inner parser is outside the PEG family"
   | .list v _ lo hi item sep abort, some o => listOracleCore c o v lo hi item sep abort none
   | .both (.list v _ lo hi item sep abort) tail, some o => listOracleCore c o v lo hi item sep abort (some tail)
   | .list .., none => "FAIL C11: " ++ impl
@@ -624,6 +659,13 @@ def nopanicOracle (impl : String) : String :=
     let fp := ((impl.splitOn "fmtpanics=").getD 1 "0")
     if fp.startsWith "0" then "ok" else "FAIL C01: formatting an error report or a lexer state panicked"
 
+/-- the property a family primarily serves (for clauses evaluated on every family) -/
+def famProp (fam : String) : String :=
+  if fam == "peg" then "C06" else if fam == "rep" then "C07" else if fam == "capture" then "C14"
+  else if fam == "bracket" then "C10" else if fam == "list" then "C11" else if fam == "errors" then "C13"
+  else if fam == "scoped" then "C09" else if fam == "ctxops" then "C15" else if fam == "recover" then "C12"
+  else "C06"
+
 def run (fam : String) (fields : List String) : String × String :=
   match parseCase fields.dropLast with
   | none => ("?", "FAIL bad case line")
@@ -659,7 +701,24 @@ def run (fam : String) (fields : List String) : String × String :=
     let c13b := if fam == "bracket" && verdict.startsWith "FAIL C10: reference matcher says" &&
         (verdict.splitOn "the combinator returned err:").length > 1
       then "FAIL C13: the bracket error does not name the offending bracket: " ++ (verdict.drop 10).toString else "ok"
-    let extra := [nopanicOracle impl, c03, c03e, c13b] ++
+    -- re-applying the same parser object: after a failed application the next one starts from the
+    -- same lexer, so it must fail in the same way (a parser is a function of its input; closures
+    -- that carry state across applications must not let it show).  Recover-after strategies are
+    -- left to the C12 oracle (finding F07r is exactly such a leak).
+    let reapply :=
+      if fam == "twice" || fam == "recover" || ((fields.getD 8 "").splitOn "(after").length > 1 then "ok" else
+      match parseObs impl with
+      | some o =>
+        let rec go : List String → Option String
+          | a :: b :: rest =>
+            if a.startsWith "err:" && a != b then some s!"application after a failed one gave {(b.splitOn ":cur=").headD b}, the failed one gave {a}"
+            else go (b :: rest)
+          | _ => none
+        match go o.results with
+        | some msg => "FAIL " ++ famProp fam ++ ": re-applying the same parser object to the same input: " ++ msg
+        | none => "ok"
+      | none => "ok"
+    let extra := [nopanicOracle impl, c03, c03e, c13b, reapply] ++
       (if fam == "errors" || fam == "twice" then [] else [errV])
     let fails := ([verdict] ++ extra).filterMap fun v =>
       if v.startsWith "FAIL " then some (v.drop 5).toString else none
